@@ -127,7 +127,10 @@ func rioGen(r *rand.Rand, mode string, thorough bool) rioCase {
 	}
 	for i := 0; i < n; i++ {
 		rec := rioRec{SeekBack: -1, Pattern: r.Intn(7)}
-		rec.Size = pick(r, 0, 1, 2, 3, 5, 17, 60, 63, 64, 65, 127, 200, 1000)
+		rec.Size = pick(r, 0, 1, 2, 3, 5, 17, 60, 63, 64, 65, 127, 128, 129, 200, 255, 256, 1000)
+		if mode == "control" && r.Intn(20) == 0 {
+			rec.Size = pick(r, 16383, 16384, 16385, 65535, 65536, 65537) // varint / 16-bit boundaries
+		}
 		if mode == "control" && r.Intn(6) == 0 {
 			rec.Size = pick(r, 4090, 4096, 4100, 5000, 8191, 8192, 8193, 70000) // around the 4 KiB scan window and buffers
 		}
